@@ -33,7 +33,8 @@ var rawFuncs = map[string]struct {
 	"rv_deepnan": {"rv_deepnan", SBool},
 	"rvkind":     {"rvkind", SInt}, "tconvertible": {"tconvertible", SBool},
 	"tnumout": {"tnumout", SInt}, "tout": {"tout", SInt}, "tmethod": {"tmethod", SBool}, "tfield": {"tfield", SBool},
-	"texported": {"texported", SBool}, "tnumfield": {"tnumfield", SInt},
+	"texported": {"texported", SBool}, "tnumfield": {"tnumfield", SInt}, "tviaptr": {"tviaptr", SBool},
+	"vcomparable": {"vcomparable", SBool}, "tdeepcmp": {"tdeepcmp", SBool},
 }
 
 func (c *SpecCtx) args(es []ast.Expr) []TT {
